@@ -488,6 +488,42 @@ def combine(pid, a, b, every=3, **kw):
     return combine_n(pid, [a, b], [0] * (every - 1) + [1], **kw)
 
 
+def pool_spec(pid, rule, profile, **kw):
+    from . import pool
+
+    def run_one(seed, run):
+        return runner.result_to_dict(pool.run_pool(pid, seed, run, profile), keep_trace=True)
+
+    def _replay(doc):
+        return pool.run_pool(pid, 0, 0, profile, doc=doc)
+
+    def replay_fn(doc):
+        return [v.to_json() for v in _replay(doc).violations]
+
+    def minimise_fn(doc):
+        want = doc["expected"]["oracle"]
+
+        def test(sub):
+            try:
+                return any(v.oracle == want for v in _replay(dict(doc, trace=sub)).violations)
+            except Exception:  # noqa: BLE001
+                return False
+
+        if not test(doc["trace"]):
+            return doc
+        small = runner.ddmin(list(doc["trace"]), test, budget=80)
+        res = _replay(dict(doc, trace=small))
+        v = [x for x in res.violations if x.oracle == want][0]
+        return dict(doc, trace=res.trace, original_length=len(doc["trace"]), expected={"oracle": want, "msg": v.msg, "step": v.step})
+
+    comps = {
+        "real": ["constructors, equality, abstract-repr (de)serialisers and schema validation of devices, channels, EOM/DMM, registers, layouts, detuning maps, noise models, EmulationConfig/QutipConfig, observables, StateRepr/QutipState, OperatorRepr/QutipOperator, Results, SimConfig conversion"],
+        "model_or_stub": ["deep fingerprints and the seeded constructor-actor scheduler (simlib/pool.py)", "counter-derived uuid4, owned numpy RNG"],
+        "not_exercised": ["remote backends"],
+    }
+    return runner.CheckSpec(pid=pid, level="exploration", rule=rule, run_one=run_one, replay_fn=replay_fn, minimise_fn=minimise_fn, components=comps, known_matchers=known.MATCHERS, **kw)
+
+
 def scen_spec(pid, rule, **kw):
     from . import scen
 
@@ -564,6 +600,14 @@ def _build2():
     )
     _REG["C04"] = combine("C04", _REG["C04"], c04_tmpl)
 
+    _REG["C17"] = pool_spec(
+        "C17",
+        "POOL-SIM: a pool of live objects of every class named in the property (devices with EOM/DMM/layouts/noise model, registers 2D/3D +- layout, layouts, detuning maps, noise models, EmulationConfig/QutipConfig with observables/states/operators, StateRepr/QutipState, OperatorRepr/QutipOperator, Results); a seeded scheduler interleaves, over 3 constructor actors, construct / persist-restore through the schema-validated abstract representation (the restored object joins the pool) / NoiseModel<->SimConfig conversion / read-only use incl. passing the object to other constructors / drop; after EVERY operation the deep fingerprint of every live object must be unchanged (aliasing invariant), restored == original, conversions preserve types and parameters, noise types are exactly those whose parameters were given; non-trivial = >=1 successful restore and >=3 classes alive; distinct = distinct operation histories",
+        {"hist_min": 8, "hist_max": 22},
+        runs={"quick": 1500, "thorough": 40000},
+        assumptions=["PARTIAL: boundary-directed coverage of 'all valid parameter combinations' per class is not claimed (a per-input statement outside this technique); the machine samples them", "states and operators are persisted inside a configuration (their only serialised form)"],
+        expected_probes=[],
+    )
     c07_scen = scen_spec(
         "C07",
         "EMU-SIM Ramsey scenarios: pi/2 - phase shift phi delivered by a seeded mechanism (explicit shift, post_phase_shift, split over two shifts, index-based shift, shift made while another channel of the same basis exists) - pi/2 on an isolated atom, global or local channel, either basis; excitation probability vs cos^2(phi/2)",
